@@ -383,14 +383,45 @@ func replayRPC(args []string) error {
 	idx.Close()
 	// rows of the file data source for a few query texts (while no server holds the file)
 	var sqlTexts []string
+	var sqlArgs [][]any
 	var fileRows []sqlRows
 	for _, q := range []vx.Query{{E: &vx.Expr{Op: "eq", Col: 1, Val: 1}}, {E: &vx.Expr{Op: "not", E: &vx.Expr{Op: "eq", Col: 2, Val: 2}}, GB: []int{1}},
 		{E: &vx.Expr{Op: "eq", Col: 1, Val: 3}, GB: []int{2}}, {E: &vx.Expr{Op: "eq", Col: 3, Val: 1}}, {E: &vx.Expr{Op: "or", Es: []*vx.Expr{{Op: "eq", Col: 1, Val: 2}, {Op: "eq", Col: 2, Val: 1}}}, GB: []int{2, 1}}} {
 		sqlTexts = append(sqlTexts, renderQuery(dict, q))
+		sqlArgs = append(sqlArgs, nil)
+	}
+	// the same through placeholders (bound by the driver before the request is sent), also below NOT and in another order
+	ph := func(c, n int) *vx.Expr { return &vx.Expr{Op: "ph", Col: c, Ph: n} }
+	for _, pq := range []struct {
+		q    vx.Query
+		args []any
+	}{
+		{vx.Query{E: ph(1, 1)}, []any{dict.Val(1)}},
+		{vx.Query{E: &vx.Expr{Op: "or", Es: []*vx.Expr{ph(1, 2), ph(2, 1)}}, GB: []int{2, 1}}, []any{dict.Val(1), dict.Val(2)}},
+		{vx.Query{E: &vx.Expr{Op: "not", E: &vx.Expr{Op: "and", Es: []*vx.Expr{ph(2, 1), {Op: "not", E: ph(1, 2)}}}}, GB: []int{1}}, []any{dict.Val(2), dict.Val(1)}},
+	} {
+		sqlTexts = append(sqlTexts, renderQuery(dict, pq.q))
+		sqlArgs = append(sqlArgs, pq.args)
+	}
+	viaStmt := func(db *sql.DB, text string, args []any) sqlRows {
+		var out sqlRows
+		if p := vx.Safely(func() {
+			stmt, err := db.Prepare(text)
+			if err != nil {
+				out = sqlRows{Err: true, Rows: [][]string{}}
+				return
+			}
+			defer stmt.Close()
+			rows, err := stmt.Query(args...)
+			out = collect(rows, err)
+		}); p != nil {
+			out = sqlRows{Panic: p.Value, Rows: [][]string{}}
+		}
+		return out
 	}
 	if fdb, err := sql.Open("updog", "file:"+path); err == nil {
-		for _, text := range sqlTexts {
-			fileRows = append(fileRows, safeQuery(fdb, text))
+		for qi, text := range sqlTexts {
+			fileRows = append(fileRows, safeQuery(fdb, text, sqlArgs[qi]...))
 		}
 		fdb.Close()
 	}
@@ -455,9 +486,12 @@ func replayRPC(args []string) error {
 			if err == nil {
 				for qi, text := range sqlTexts {
 					rep.Steps++
-					got := safeQuery(db, text)
+					got := safeQuery(db, text, sqlArgs[qi]...)
 					if !sameRows(got, fileRows[qi]) {
-						rep.Mismatch(map[string]any{"kind": "rpc-grpc-driver-rows", "query": text, "got": got, "want": fileRows[qi]})
+						rep.Mismatch(map[string]any{"kind": "rpc-grpc-driver-rows", "query": text, "args": sqlArgs[qi], "got": got, "want": fileRows[qi]})
+					}
+					if got = viaStmt(db, text, sqlArgs[qi]); !sameRows(got, fileRows[qi]) {
+						rep.Mismatch(map[string]any{"kind": "rpc-grpc-driver-rows", "query": text, "args": sqlArgs[qi], "prepared": true, "got": got, "want": fileRows[qi]})
 					}
 				}
 				db.Close()
